@@ -146,9 +146,15 @@ theorem getLast_some_of_ne_nil {α} {l : List α} (h : l ≠ []) : ∃ x, l.getL
   | some x => exact ⟨x, rfl⟩
 
 
-theorem literal_spec : T src Tr literal (fun _ _ => True) := by
+/-- **no literal is invented**: every `BasicLit` the parser creates carries the kind, the text and the
+    offset of a literal token that the scanner produces from the source -/
+theorem literal_spec : T src Tr literal (fun l _ => RealLit src l) := by
   unfold literal
-  hoare
+  refine T.bindP takeCurrent_spec ⟨fun cur hcur => ?_⟩
+  split
+  · rename_i pos kind value
+    exact T.bind (T.anyQ next_spec) (fun _ => T.pure _ (fun _ _ => ⟨value, rfl, hcur _ _ rfl⟩))
+  · hoare
 
 
 theorem commaList_spec {α} (item : P α) (Qp : α → Prop) (hi : T src Tr item (fun a _ => Qp a)) :
